@@ -114,7 +114,10 @@ def check_intforms(case, ctx):
         arr = [list(p) for p in bars]
     ctx.label("form:" + form, "n=%d" % len(bars))
     dgms = [np.array([[0.0, 1.0]])] * case["hom_deg"] + [arr]
-    ple = ctx.call(PersLandscapeExact, dgms=dgms, hom_deg=case["hom_deg"])
+    # the degree as the integer type a loop over np.arange / a grid search hands over in every second case
+    hd = np.int64(case["hom_deg"]) if len(bars) % 2 == 0 else case["hom_deg"]
+    ctx.label("hom_deg_as:" + type(hd).__name__)
+    ple = ctx.call(PersLandscapeExact, dgms=dgms, hom_deg=hd)
     fired = LD.shortcut_fired(ple)
     cps = ple.critical_pairs
     fbars = [[float(b), float(d)] for b, d in bars]
